@@ -206,6 +206,15 @@ fn simd_swap(do_swap: SimdBool, a: &mut SimdReal, b: &mut SimdReal) {
     *b = _a.select(do_swap, *b);
 }
 
+/// Verification hook: runs the private 4-wide slab test on a single (splatted) box and returns
+/// the verdict of lane 0.
+#[cfg(feature = "verif")]
+pub fn verif_cast_ray_scalar(mins: Point2<f64>, maxs: Point2<f64>, ray: &Ray) -> bool {
+    use parry2d_f64::bounding_volume::Aabb;
+    let bv = SimdAabb::splat(Aabb::new(mins, maxs));
+    cast_ray(&bv, &SimdRay::splat(*ray)).0.extract(0)
+}
+
 #[cfg(test)]
 mod tests {
     use super::*;
